@@ -85,7 +85,11 @@ Feed == /\ ph = "feed" /\ ci <= hi /\ l <= Len(Case.cmds)
         /\ loose' = (loose /\ ~Resyncs(Cur.cmd))
         /\ UNCHANGED <<ci, l, hi>>
 
-Run  == /\ ph = "run" /\ m.mode = "run"
+\* sessions marked "big" (tens of thousands of statements: the memory-pool limits) are run in
+\* one step per command, without intermediate TLC states
+RunBig == /\ ph = "run" /\ m.mode = "run" /\ Case.big
+          /\ m' = RunToWait(m, 100000000) /\ UNCHANGED <<ci, l, ph, nint, hi, loose>>
+Run  == /\ ph = "run" /\ m.mode = "run" /\ ~Case.big
         /\ m' = Step(m) /\ UNCHANGED <<ci, l, ph, nint, hi, loose>>
 
 \* The interrupt landed between two opcodes of the statement about to be executed (or exactly
@@ -144,7 +148,7 @@ Discard == /\ ph = "run" /\ m.mode = "oom"
 View == <<ci, l, ph, nint, hi, loose, m.mode, m.pc, m.vars, m.dims, m.deft, m.fns, m.ctl, m.dptr, m.col,
           m.tron, m.ltr, m.cont, m.contx, m.ctlx, m.stale, m.inp, m.resp, m.dgen>>
 
-Next == Feed \/ Run \/ Intr \/ Match \/ NextCase \/ Stuck \/ Discard
+Next == Feed \/ Run \/ RunBig \/ Intr \/ Match \/ NextCase \/ Stuck \/ Discard
 Spec == Init /\ [][Next]_tvars
 
 \* ---- invariants of the abstract machine, evaluated at every state of every trace
@@ -155,7 +159,7 @@ InBounds  == \A k \in DOMAIN m.vars : k[4] # <<>> =>
                /\ ArrId(k[2], k[3]) \in DOMAIN m.dims
                /\ Len(m.dims[ArrId(k[2], k[3])]) = Len(k[4])
                /\ \A i \in 1..Len(k[4]) : k[4][i] >= 0 /\ k[4][i] <= m.dims[ArrId(k[2], k[3])][i]
-PoolBounded == Slots(m.ctl) <= Limit /\ Cardinality(DOMAIN m.vars) <= Limit + 1
+PoolBounded == m.nslots <= Limit /\ m.nslots = Slots(m.ctl) /\ Cardinality(DOMAIN m.vars) <= Limit + 1
 DataInRange == m.dptr >= 0 /\ m.dptr <= Len(m.data)
 ColIsTrue == m.col >= 0
 =============================================================================
